@@ -175,8 +175,32 @@ func (r *Run) reflectCall(st *State, fr *Frame, name string, recv Val, args []Va
 		}
 		r.yield(st, fr, in, "reflect.Select")
 		return done(intRes(idx), e.freshConst("selrecv", vs), e.freshConst("selok", SBool))
+	case "reflect.Zero":
+		// Zero(t): the valid zero Value of type t (A-LIB)
+		t := typ(args[0])
+		safe("Zero", Not(Eq(t, NilOf(SAny))), "reflect.Zero of a non-nil Type")
+		z := uf("rv_zero", vs, t)
+		st.assume(uf("rv_valid", SBool, z))
+		st.assume(Eq(uf("rv_type", SAny, z), t))
+		st.assume(uf("rt_assignable", SBool, t, t)) // identical types are assignable
+		return done(z)
 	case "reflect.Append":
-		return done(e.freshConst("rv_append", vs))
+		// Append(s, x...) panics unless s is a slice Value and every x is a valid Value assignable to its element
+		// type; the result is a valid Value of the same slice type (A-LIB)
+		sv0 := e.asTerm(args[0], vs)
+		st0 := uf("rv_type", SAny, sv0)
+		goal := And(uf("rv_valid", SBool, sv0), Eq(kindOf(st0), IntLit(23)))
+		if xs, ok := args[1].(*SliceV); ok && xs.Elem == vs {
+			k := e.freshConst("append_k", SInt)
+			xk := xs.at(k)
+			goal = And(goal, Implies(And(App(SBool, "<=", IntLit(0), k), App(SBool, "<", k, xs.Len)),
+				And(uf("rv_valid", SBool, xk), uf("rt_assignable", SBool, uf("rv_type", SAny, xk), uf("rt_elem", SAny, st0)))))
+		}
+		safe("Append", goal, "reflect.Append to a slice Value of valid Values assignable to its element type")
+		res := e.freshConst("rv_append", vs)
+		st.assume(uf("rv_valid", SBool, res))
+		st.assume(Eq(uf("rv_type", SAny, res), st0))
+		return done(res)
 	// ------------------------------------------------------------ Type (interface) methods
 	case "(reflect.Type).Kind":
 		t := typ(recv)
@@ -268,6 +292,8 @@ func (r *Run) reflectCall(st *State, fr *Frame, name string, recv Val, args []Va
 	case "(reflect.Value).Set":
 		v := e.asTerm(recv, vs)
 		x := e.asTerm(args[0], vs)
+		// identical types are assignable (Go spec, assignability)
+		st.assume(Implies(Eq(uf("rv_type", SAny, x), uf("rv_type", SAny, v)), uf("rt_assignable", SBool, uf("rv_type", SAny, x), uf("rv_type", SAny, v))))
 		safe("Value.Set", And(uf("rv_canset", SBool, v), uf("rv_valid", SBool, x), uf("rt_assignable", SBool, uf("rv_type", SAny, x), uf("rv_type", SAny, v))), "Value.Set of a valid, assignable Value into a settable Value")
 		st.Counters["calls:rvset"] = App(SInt, "+", r.counter(st, "calls:rvset"), IntLit(1))
 		// Set changes what the receiver's storage holds. Values are immutable terms here, so the effect is
